@@ -54,6 +54,8 @@ def t_version_pairs(ex):
                 return Model(match, "VersionMatch.match")
             raise OutOfSubset(name)
     it.models[A.restricts.VersionMatch] = lambda it_, op, v, r, **k: VM(op, v, r)
+    # the version comparison itself (C01's contract): the sign of comparing (version, revision) pairs in the abstract order
+    it.models[A.cpv.ver_cmp] = Model(lambda it_, v1, r1, v2, r2: SInt(lex(v1.t, _rev(r1), v2.t, _rev(r2))), "ver_cmp", pure=True)
 
     def mk(tag, op):
         v, r = KInt.fresh(f"{tag}_version"), KInt.fresh(f"{tag}_revision")
@@ -179,8 +181,21 @@ def enum_pairs(seed):
                 note("incomplete", a, b, f"{w[0].cpvstr}:{w[0].slot}/{w[0].subslot}::{w[0].repo.repo_id} iuse={list(w[0].iuse)} use={list(w[0].use)} matches both {a} and {b}, yet they are reported as not intersecting")
             if i1 and not w:
                 note("unwitnessed", a, b, f"{a} and {b} are reported as intersecting, but none of {len(var)} package variants (2 versions x slots x repositories x USE states) matches both")
+    # versions that differ in their suffix chains (a different number of suffixes, the same suffix with another number, a suffix with and without
+    # its number): the interval arithmetic of intersects and the matching of packages rest on the same comparison, asked in either argument order
+    POOL2 = ["1_p1", "1_p2", "1_p2_p1", "1_p20230101", "1_p20221014_p1", "1_p", "1_p0", "1", "1_alpha", "1_alpha0", "1_alpha1_p1", "1_beta2", "1_beta1_p3", "1_rc1", "1_rc1_p1_p2"]
+    atoms2 = [atom(f"{op}cat/pkg-{v}") for op in ("<", "<=", "=", ">=", ">", "~") for v in POOL2]
+    pk2 = [FakePkg(f"cat/pkg-{v}{t}") for v in POOL2 for t in ("", "-r1", "_p5")]
+    for a, b in itertools.product(atoms2, repeat=2):
+        cases += 1
+        i1, i2 = a.intersects(b), b.intersects(a)
+        if i1 != i2:
+            note("asymmetric", a, b, f"{a}.intersects({b}) is {i1} but {b}.intersects({a}) is {i2}")
+        w = [p for p in pk2 if a.match(p) and b.match(p)]
+        if w and not i1:
+            note("incomplete", a, b, f"{w[0].cpvstr} matches both {a} and {b}, yet they are reported as not intersecting")
     return {"name": "C05.pairs.bounded_enumeration",
-            "bound": f"every ordered pair of {len(atoms)} atoms (8 operators x {len(POOL)} versions) against {len(uni)} versions closed under revision bump / drop / extension, suffix and component appends; "
+            "bound": f"every ordered pair of {len(atoms2)} atoms over {len(POOL2)} versions with suffix chains (6 operators) against {len(pk2)} such versions; every ordered pair of {len(atoms)} atoms (8 operators x {len(POOL)} versions) against {len(uni)} versions closed under revision bump / drop / extension, suffix and component appends; "
                      f"4 version pairs x every ordered pair of {len(tails)} slot / sub-slot / repository / USE tails against {len(var)} package variants", "cases": cases, "failures": fails}
 
 
